@@ -127,13 +127,16 @@ def run(ctx):
             continue
         va, vb = a.value, b.value
         if k == "v1.zero.guard":
-            va = " & ".join(x for x in va.split(" & ") if "hybrid" not in x and "blocks" not in x and "end" not in x)
-            vb = " & ".join(x for x in vb.split(" & ") if "hybrid" not in x and "blocks" not in x and "end" not in x)
+            va = " & ".join(x for x in va.split(" & ") if "hybrid" not in x)
+            vb = " & ".join(x for x in vb.split(" & ") if "hybrid" not in x)
         if va == vb:
             ctx.holds("C10.2", a.fn, "HasherHybrid and FileHasher: %s = %s" % (k, va), label)
         else:
             ctx.violated("C10.2", b.fn, "HasherHybrid has %s = `%s`, FileHasher has `%s`: hybrid metafiles from the class-based and the command-line creator differ" % (k, va, vb), label)
     ctx.floor("facts compared across sibling hashers", 18, n)
+    # the helper all three share must give the same answer however often a sibling hands it the same list
+    HF.judge_facts(ctx, "C10.2", "merkle_root", HF.merkle_facts(ctx), {"merkle.pure": HF.SPEC_MERKLE["merkle.pure"]},
+                   why="agreement of the hashers (HasherV2 reuses its all-zero piece list, the others build it once)")
     # ---- C10.3 creators
     tf = {}
     hy = {}
